@@ -60,7 +60,7 @@ CHECKS = {
                 text="complete Ok(v) <=> partial Ok((v,len)) and re-parsing the consumed prefix gives the same value, for every byte string up to the bound (integers and floats). Found and fixed the lone-sign defect of the integer partial parser.",
                 design_ref="DESIGN.md C11", note=TRUST + " Outside: separator/suffix formats, custom punctuation, longer inputs."),
     "C12": dict(engine="K", technique=K + ", differential against a flag-parameterised reference recogniser",
-                text="STANDARD float/integer grammar with error kind and index for arbitrary bytes; each syntax flag (and a few interacting pairs) for strings over the number alphabet: accept/reject, count and digit decomposition.",
+                text="STANDARD float/integer grammar with error kind and index for arbitrary bytes; each single syntax flag on every run (interacting pairs in the thorough tier) for strings over the number alphabet: accept/reject, count and digit decomposition.",
                 design_ref="DESIGN.md C12", note=TRUST + " Outside: unlisted flag combinations, prebuilt language formats, float base prefix/suffix."),
     "C13": dict(engine="K", technique=K + ", metamorphic harness",
                 text="For uniform internal/leading/trailing/consecutive separator combinations (all 14 for integers, 4 (quick) / 13 (thorough) for floats): accepted with separators => accepted without with the same value; separators only in enabled positions; enabled positions never cause rejection; separator-free inputs treated identically. Found and fixed two genuine defects (ILC trailing separator at end of input, ITC leading separator after a sign).",
